@@ -65,12 +65,12 @@ DoLog == /\ Running /\ last # None
 LeafRet == /\ Running /\ ~Top.pipe
            /\ \E c \in 0..Top.n :
                 /\ (~Top.invertible /\ Top.eff = "I") => c = 0
-                /\ Ret(Top.id, c)
+                /\ Ret(Top.id, c, Top.eff)
                 /\ applied' = Append(applied, [id |-> Top.id, eff |-> Top.eff, count |-> c, oneway |-> ~Top.invertible])
            /\ UNCHANGED <<phase, result, reqd>>
 PipeRet == /\ Running /\ Top.pipe /\ Top.k = NSteps(Top) /\ last = None
            /\ LET c == IF Top.cnt = -1 THEN Top.n ELSE Top.cnt IN
-              /\ Ret(Top.id, c)
+              /\ Ret(Top.id, c, Top.eff)
               /\ IF Len(frames) = 1 THEN phase' = "done" /\ result' = c ELSE UNCHANGED <<phase, result>>
            /\ UNCHANGED <<applied, reqd>>
 Finished == phase = "done" /\ UNCHANGED mvars
